@@ -263,3 +263,29 @@ def arg_agreement_rule(chk, P, pid, crates_files, floor):
                  "arguments agree with the like-named parameters of the workspace function they are passed to",
                  "call of %s at %s passes variable `%s` for parameter `%s` and `%s` for parameter `%s`: the two "
                  "same-typed arguments are swapped" % (callee, cs.loc, ai, aj, aj, ai), loc=cs.loc)
+
+
+def await_source(body, o, depth=0):
+    """If an origin is the output of `<expr>.await`, the origin of <expr> (usually the call creating the
+    future); else None.  Follows Ready payload -> poll(Pin::new_unchecked(&mut awaitee)) -> into_future(expr)."""
+    while depth < 40:
+        depth += 1
+        if o[0] in ("field", "downcast", "index", "cast"):
+            o = o[1]
+            continue
+        if o[0] == "phi":
+            for x in o[1]:
+                r = await_source(body, x, depth)
+                if r is not None:
+                    return r
+            return None
+        if o[0] == "call":
+            nm = o[1].callee.get("name")
+            if nm == "poll" and o[1].callee.get("trait") == "core::future::future::Future":
+                o = body.origin(o[1].args[0], through_calls=("new_unchecked", "as_mut", "deref_mut", "get_unchecked_mut", "map_unchecked_mut"))
+                continue
+            if nm == "into_future":
+                return body.origin(o[1].args[0])
+            return None
+        return None
+    return None
